@@ -121,6 +121,13 @@ CORPUS = [
                                                                                               "deserialize": "no de", "mut_any": "no mut"})]))],
                                                     flat=True))),
                             F("z", L("u8"))])),
+    # accessors / validator / denials ON the single field of a flattened struct (the flattened level is transparent for
+    # keys, not for the field's attributes)
+    ("flat_attr", Struct([F("w", Struct([F("only", L("u8"), get=True, get_mut=True, validate=True)], flat=True)),
+                          F("x", Struct([F("only", named(("p", L("u8")), ("q", L("bool"))),
+                                           deny={"deserialize": "ro", "mut_any": "no mut"})], flat=True)),
+                          F("y", Struct([F("only", L("i8"), deny={"serialize": "wo", "ref_any": "no ref"})], flat=True)),
+                          F("z", L("u8"))])),
 
 ]
 
